@@ -1050,4 +1050,4 @@ def run(ctx):
                            "skip_initializers and the counted Loop forms are modelled (Export/EmitCF.v) and compared, not covered by a soundness theorem; "
                            "If nodes whose outputs are all unused are not generated (the converter refuses them)")
     if ctx.tier == "thorough":
-        ctx.coqchk(["Props.C13", "Props.C13_unssa", "Props.C13_constrepr", "Props.C13_emit", "Props.C13_nested", "Props.C13_unique"])
+        ctx.coqchk(["Props.C13", "Props.C13_unssa", "Props.C13_constrepr", "Props.C13_emit", "Props.C13_nested", "Props.C13_unique", "Props.C13_options"])
